@@ -249,6 +249,29 @@ class Problem:
         return float(best), (w0, b0)
 
     # -------------------------------------------------------------- reference optimiser
+    def _lp_pinball(self):
+        """Quantile regression with a (weighted) l1 penalty as a linear programme:
+        min q 1.u+ + (1 - q) 1.u- + sum_j a_j (w+_j + w-_j)
+        s.t. X (w+ - w-) + (b+ - b-) + u+ - u- = y, everything >= 0."""
+        pen = self.pen
+        if pen.name not in ("L1", "WeightedL1"):
+            raise NotImplementedError("LP witness: (weighted) l1 penalties only")
+        n, p = self.n, self.p
+        q = self.loss.q
+        a = np.array([pen._a(j) for j in range(p)], dtype=float)
+        nb = 1 if self.fit_intercept else 0
+        c = np.concatenate([a, a, np.zeros(2 * nb), np.full(n, q), np.full(n, 1 - q)])
+        A = np.hstack([self.X, -self.X] + ([np.ones((n, 1)), -np.ones((n, 1))] if nb else [])
+                      + [np.eye(n), -np.eye(n)])
+        bounds = [(0, None)] * p + [(0, 0 if getattr(pen, "positive", False) else None)] * p \
+            + [(0, None)] * (2 * nb + 2 * n)
+        res = scipy.optimize.linprog(c, A_eq=A, b_eq=self.loss.y, bounds=bounds, method="highs")
+        if res.status != 0:
+            raise RuntimeError("LP witness failed: " + str(res.message))
+        w = res.x[:p] - res.x[p:2 * p]
+        b = float(res.x[2 * p] - res.x[2 * p + 1]) if nb else 0.0
+        return w, b, self.objective(w, b), int(getattr(res, "nit", 0))
+
     def _prox_all(self, z, step):
         pen = self.pen
         if pen.kind == "vec":
@@ -270,6 +293,13 @@ class Problem:
         """Monotone accelerated proximal gradient with backtracking and restart on (w, b).
         Convex problems only.  Returns (w, b, objective, n_iter).  The result is only ever
         used as a witness point with a known objective value."""
+        if self.loss.name == "Pinball":
+            # piecewise-linear objective: the witness is the vertex an LP solver returns
+            # (or the caller's own point - any point is a valid witness)
+            if w_start is not None:
+                b0 = 0.0 if b_start is None else b_start
+                return np.array(w_start, dtype=float), b0, self.objective(w_start, b0), 0
+            return self._lp_pinball()
         T = self.loss.y.shape[1] if self.multitask else None
         w = np.zeros((self.p, T) if self.multitask else self.p) if w_start is None \
             else np.array(w_start, dtype=float)
